@@ -497,6 +497,7 @@ impl Reg {
             thread_rng().sample(rand_distr::WeightedIndex::new(self.get_probabilities()).unwrap());
 
         self.collapse_mask(rand_idx, mask);
+        self.normalize();
         super::CReg::with_state(self.q_num, rand_idx & mask)
     }
 
